@@ -14,6 +14,10 @@ CHECKS = {
   text="Solver-decided, bounded: for every well-formed current state and every candidate within 13 shape variants (all leaves symbolic, amounts unbounded integers) the real StateMachine.Update accepts only candidates satisfying an independent reference predicate written from the property text, never panics, and leaves phase/staging/current untouched and refuses to sign when it refuses; same for Init and CheckUpdate; Allocation.Valid is exact at the 1024/1025 limits.",
   note="Trusted: go/ssa lowering, interpreter (translator-validated per run), z3 (linear integer arithmetic for the sums); the reference predicate of DESIGN.md Appendix A.1.",
   ref="DESIGN.md §3 C02, Appendix A.1"),
+ "C05": dict(
+  text="Engine/solver-decided, bounded: the real watcher (all its goroutines, pub-subs and registry, run by the engine's scheduler on a virtual clock) against a scripted RegisterSubscriber, for all histories of up to h steps with symbolic versions: a registered event below the newest published version (and not below what the watcher registered itself) triggers exactly one Register call with the newest parent transaction and, for a locked sub-channel, its newest or archived transaction; nothing newer known -> no call; registered events reach the client strictly increasing; progressed/concluded events are always relayed; a refused StopWatching leaves the channel watched and can be repeated. The refused-stop defect (F15) found this way was repaired.",
+  note="Trusted: go/ssa lowering, interpreter with cooperative scheduler, virtual clock and context model (translator-validated natively), z3; bounded histories and schedules.",
+  ref="DESIGN.md §3 C05, Appendix A.5"),
  "C09": dict(
   text="Solver-decided, bounded: from an arbitrary invariant-satisfying machine (all 12 phases x staging/current shapes, symbolic state leaves) each of the 17 operations returns nil exactly when the reference automaton written from the method documentation enables it, then reaches the documented phase with the documented effect, and otherwise leaves phase, staging and current transaction (identity, slots and contents) unchanged; never panics for indices below N.",
   note="Trusted: go/ssa lowering, interpreter (translator-validated), z3; reference automaton of DESIGN.md Appendix A.2; ideal signatures.",
